@@ -1293,7 +1293,7 @@ impl Prop for C03 {
     fn case_count(&self, tier: Tier) -> u64 {
         match tier {
             Tier::Quick => 6000,
-            Tier::Thorough => 120000,
+            Tier::Thorough => 100000,
         }
     }
     fn fixed_cases(&self, tier: Tier) -> Vec<Case> {
